@@ -301,18 +301,52 @@ func tableStepNonNegative(p *Prog) (bool, string) {
 			if !isG || !strings.Contains(strings.ToLower(g.Name()), "lookup") {
 				return
 			}
-			// appended value
-			call, isC := strip(st.Val, false).(*ssa.Call)
-			if !isC {
-				return
-			}
-			for _, v := range appendedValues(call) {
-				n++
-				pr := &prover{p: p}
-				if !pr.GE(v, atomConst(1)) {
-					ok = false
-					why = p.At(ins) + ": a table entry is not proved >= 1"
+			// the stored table: the table itself extended by append(...) calls (directly, or built up in a loop), every
+			// appended entry proved >= 1
+			seen := map[ssa.Value]bool{}
+			var check func(v ssa.Value, d int) bool
+			check = func(v ssa.Value, d int) bool {
+				v = strip(v, false)
+				if d > 12 || seen[v] {
+					return true
 				}
+				seen[v] = true
+				switch x := v.(type) {
+				case *ssa.Phi:
+					for _, e := range x.Edges {
+						if !check(e, d+1) {
+							return false
+						}
+					}
+					return true
+				case *ssa.Const:
+					return x.Value == nil
+				case *ssa.UnOp:
+					g2, ok := x.X.(*ssa.Global)
+					return ok && x.Op == token.MUL && g2 == g
+				case *ssa.Call:
+					if bi, ok := x.Call.Value.(*ssa.Builtin); !ok || bi.Name() != "append" || len(x.Call.Args) != 2 {
+						return false
+					}
+					vals := appendedValues(x)
+					if len(vals) == 0 {
+						return false
+					}
+					for _, av := range vals {
+						n++
+						pr := &prover{p: p}
+						if !pr.GE(av, atomConst(1)) {
+							ok = false
+							why = p.At(ins) + ": a table entry is not proved >= 1"
+						}
+					}
+					return check(x.Call.Args[0], d+1)
+				}
+				return false
+			}
+			if !check(st.Val, 0) {
+				ok = false
+				why = p.At(ins) + ": the lookup table is assigned something other than itself extended by append"
 			}
 		})
 	}
